@@ -352,7 +352,7 @@ impl Ctx {
     }
 
     pub fn outcome(&mut self, h: u64) {
-        if self.outcomes.len() < 1 << 16 {
+        if self.outcomes.len() < 4096 {
             self.outcomes.insert(h);
         }
     }
@@ -401,7 +401,7 @@ impl Ctx {
         o.push_str("],\"counters\":{");
         o.push_str(&self.counters.iter().map(|(k, v)| format!("{}:{}", json_str(k), v)).collect::<Vec<_>>().join(","));
         o.push_str("},\"outcomes\":[");
-        o.push_str(&self.outcomes.iter().take(1 << 16).map(|h| format!("\"{h:x}\"")).collect::<Vec<_>>().join(","));
+        o.push_str(&self.outcomes.iter().take(4096).map(|h| format!("\"{h:x}\"")).collect::<Vec<_>>().join(","));
         o.push_str("],\"samples\":[");
         o.push_str(&self.samples.iter().map(|c| json_str(c)).collect::<Vec<_>>().join(","));
         o.push_str("],\"violations\":[");
